@@ -27,7 +27,7 @@ from .common import load_program
 from .rseval import Struct, Enum, NONE, Some, Ok, Err, Uninterp
 
 FILES = ["src/transfer/writer.rs", "src/transfer/reader.rs", "src/transfer/model.rs", "src/common/pb/transfer.rs", "src/common/protobuf_utils.rs", "src/common/constant.rs"]
-LENS = [3, 200, 1100]
+LENS = [0, 3, 200, 1100]   # 0: a record of 6 bytes with its prefix - shorter than the 10-byte length peek of FileMessageReader
 TABLE = "T_CONFIG"
 
 
@@ -67,7 +67,7 @@ def install_prefix_cursor(it):
 def run(tier, seed):
     t0 = time.time()
     nrec = 3
-    lens = LENS if tier != "quick" else [3, 200, 1100]
+    lens = LENS
     ob = {"engine": "smt", "harness": "s20_8_transfer_files", "encodes_files": FILES, "queries": 0, "solver_s": 0.0, "distinct": 0,
           "encodes": ["TransferWriter::{init,write_record}", "TransferReader::{new,read_record}", "TransferFileReader::{new,read_record_vec}", "reader_transfer_record",
                       "TransferHeader / TableNameMapEntity / TransferItem::{get_size,write_message,from_reader} (generated code)", "MessageBufReader::{new_with_data,next_message_vec}",
